@@ -550,13 +550,37 @@ class Res:
         return iter(self.viols)
 
 
+def _check(mod, case, ctx):
+    """check_case with the tick carrier type of the case switched on while it runs (case["ticktype"], see lib.set_tick)"""
+    tick = case.get("ticktype") if isinstance(case, dict) else None
+    if not tick:
+        return mod.check_case(case, ctx)
+    from mc import lib
+    lib.set_tick(tick)
+    try:
+        res = mod.check_case(case, ctx)
+        res.flags.append("numpy_integer_ticks")
+        return res
+    finally:
+        lib.set_tick(None)
+
+
 def std_run_unit(mod):
     """run_unit for modules that define gen_cases/check_case; samples the middle case of a unit."""
     def run_unit(unit, acc, ctx):
         k = 0
         want = getattr(mod, "SAMPLE_AT", 7)
-        for case in mod.gen_cases(unit, ctx):
-            res = mod.check_case(case, ctx)
+        every = getattr(mod, "TICK_EVERY", 0)
+        kinds = ("int64", "int32")
+
+        def cases():
+            # with TICK_EVERY = n, every n-th case of every unit is also run with its ticks handed over as numpy integers
+            for i, c in enumerate(mod.gen_cases(unit, ctx)):
+                yield c
+                if every and i % every == 0 and isinstance(c, dict) and "ticktype" not in c:
+                    yield dict(c, ticktype=kinds[(i // every) % 2])
+        for case in cases():
+            res = _check(mod, case, ctx)
             acc.case(key=jkey(case), nontrivial=res.nontrivial, transitions=res.transitions, validated=res.validated)
             for f in res.flags:
                 acc.flags[f] += 1
@@ -581,11 +605,11 @@ def std_replay(mod):
             unit = tuple(unit) if isinstance(unit, list) else unit
             res = None
             for k, c in enumerate(mod.gen_cases(unit, ctx)):
-                res = mod.check_case(c, ctx)
+                res = _check(mod, c, ctx)
                 if k == case["index"]:
                     if jkey(c) != jkey(case["case"]):
                         raise HarnessError("replay: the unit enumerates differently from the recorded run")
                     return list(res.viols)
             return []
-        return list(mod.check_case(case, ctx).viols)
+        return list(_check(mod, case, ctx).viols)
     return replay
